@@ -221,6 +221,27 @@ Fixpoint file_phase_fin (fuel : nat) (c : jcfg) (w : world) (lastfin : option N)
 Definition start_mem (c : jcfg) : option N :=
   if j_mode c =? 1 then match j_cursor c with Some cu => Some (rn (cu_blk cu)) | None => None end else None.
 
+(* How the file source ends when it runs out of work (FileSource.launchReader).  It polls for the bundle
+   lowBoundary(fstart), fstart = the block number it was started at, then for the following bundles; the stop-block marker
+   (ErrStopBlockReached) is sent only AFTER a file was queued, once the next base is above the stop block.  So the marker
+   needs the bundle that contains the stop block to exist AND the first bundle of the file source to exist; otherwise the
+   source polls for the next file for ever: "waiting".
+   fstart is the start block in number mode and in target-cursor mode (NewFileSourceThroughCursor), where a stop block below
+   the start block is rejected (invalid argument) - the first bundle is then at or below the bundle of the stop block and the
+   second condition is implied.  In cursor mode (NewFileSourceFromCursor) fstart is the CURSOR LIB, which the argument check
+   does not look at: a cursor above the stop block and beyond the last merged file waits for its own bundle
+   (model infidelity W3-C13-M1, found by the W3 audit on the unchanged library; before, the model answered JStop there). *)
+Definition first_bundle_ok (c : jcfg) (merged_end : N) : bool :=
+  if j_mode c =? 1
+  then match j_cursor c with
+       | Some cu => (rn (cu_lib cu) / j_bundle c) * j_bundle c <? merged_end
+       | None => true
+       end
+  else true.
+Definition file_end (c : jcfg) (merged_end : N) : jerr :=
+  if negb (j_stop c =? 0) && ((j_stop c / j_bundle c + 1) * j_bundle c <=? merged_end) && first_bundle_ok c merged_end
+  then JStop else JNil.
+
 (* Stream.Run: merged = canonical blocks present in merged files *)
 (* the default and custom step filters are stateless (live_phase, file_phase); final-blocks-only runs the
    stateful phases from the memory start_mem *)
@@ -246,10 +267,7 @@ Definition stream_run (c : jcfg) (w : world) (ps : list (N * N)) (merged_end : N
                           else through_cursor_run merged forked start cu stop_for_files (j_bundle c)
              end in
       let fend := match r with
-                  | RsOk => (* the stop-block marker comes after the bundle containing the stop block; if the
-                               merged files end before, the file source polls for the next file: "waiting" *)
-                            if negb (j_stop c =? 0) && ((j_stop c / j_bundle c + 1) * j_bundle c <=? merged_end)
-                            then JStop else JNil
+                  | RsOk => file_end c merged_end
                   | RsResolveErr => JInvalidArg   (* Stream.Run maps ErrResolveCursor to invalid argument *)
                   | RsNotImplemented => JOther
                   | RsFuel => JFuel end in
